@@ -179,13 +179,23 @@ fn same_bytes(s: &str, exp: &Buf) -> bool {
     true
 }
 
-/// Encode `cs[..n]` with encoding (width, be, bom), run the verbatim tail of `load` on it and
-/// require the UTF-8 form of `cs[..n]` as result.  `n` is concrete at every call site.
-fn roundtrip_text(width: u8, be: bool, bom: bool, n: usize, cs: [Sc; 3]) -> usize {
+/// Encode `cs[..n]` with encoding (width, be, bom) and check the decoder.  `n` is concrete at every
+/// call site.
+///   via_load == true : run the verbatim tail of `load` (decode_raw_bytes + BOM strip) and require the
+///                      UTF-8 form of `cs[..n]`;
+///   via_load == false: run `decode_raw_bytes` alone and require the UTF-8 form of
+///                      (U+FEFF if bom) + `cs[..n]`.  Used where the content is symbolic: operating
+///                      on a String of symbolic length (`String::from(&utf8data[3..])`) exhausts
+///                      16 GiB in CBMC.  The BOM strip is then covered by the `c17_bomstrip_*`
+///                      harnesses (all valid UTF-8 strings of a given length).
+fn roundtrip_text(width: u8, be: bool, bom: bool, n: usize, cs: [Sc; 3], via_load: bool) -> usize {
     let mut enc = Buf::new();
     let mut exp = Buf::new();
     if bom {
         put(&mut enc, BOM, width, be);
+        if !via_load {
+            put_utf8(&mut exp, BOM);
+        }
     }
     let mut k = 0;
     while k < 3 {
@@ -196,13 +206,18 @@ fn roundtrip_text(width: u8, be: bool, bom: bool, n: usize, cs: [Sc; 3]) -> usiz
         }
         k += 1;
     }
-    match kani_load_tail(enc.bytes()) {
-        Ok(s) => {
-            assert!(same_bytes(&s, &exp), "C17: decoded text differs from the encoded text");
+    if via_load {
+        match kani_load_tail(enc.bytes()) {
+            Ok(s) => {
+                assert!(same_bytes(&s, &exp), "C17: decoded text differs from the encoded text");
+            }
+            Err(_) => {
+                assert!(false, "C17: load tail returned an error");
+            }
         }
-        Err(_) => {
-            assert!(false, "C17: load tail returned an error");
-        }
+    } else {
+        let s = decode_raw_bytes(enc.bytes());
+        assert!(same_bytes(&s, &exp), "C17: decoded text differs from the encoded text");
     }
     enc.n
 }
@@ -213,15 +228,15 @@ fn roundtrip_text(width: u8, be: bool, bom: bool, n: usize, cs: [Sc; 3]) -> usiz
 fn roundtrip_set(width: u8, be: bool, bom: bool) -> u8 {
     let c0 = SET[0];
     let mut residues: u8 = 0;
-    let l = roundtrip_text(width, be, bom, 1, [c0, NONE, NONE]);
+    let l = roundtrip_text(width, be, bom, 1, [c0, NONE, NONE], true);
     residues |= 1 << (l % 4);
     let mut i1 = 0;
     while i1 < 4 {
-        let l = roundtrip_text(width, be, bom, 2, [c0, SET[i1], NONE]);
+        let l = roundtrip_text(width, be, bom, 2, [c0, SET[i1], NONE], true);
         residues |= 1 << (l % 4);
         let mut i2 = 0;
         while i2 < 4 {
-            let l = roundtrip_text(width, be, bom, 3, [c0, SET[i1], SET[i2]]);
+            let l = roundtrip_text(width, be, bom, 3, [c0, SET[i1], SET[i2]], true);
             residues |= 1 << (l % 4);
             i2 += 1;
         }
@@ -236,13 +251,13 @@ fn roundtrip_set(width: u8, be: bool, bom: bool) -> u8 {
 fn roundtrip_sample(width: u8, be: bool, bom: bool) -> u8 {
     let c0 = SET[0];
     let mut residues: u8 = 0;
-    let l = roundtrip_text(width, be, bom, 1, [c0, NONE, NONE]);
+    let l = roundtrip_text(width, be, bom, 1, [c0, NONE, NONE], true);
     residues |= 1 << (l % 4);
-    let l = roundtrip_text(width, be, bom, 2, [c0, SET[2], NONE]);
+    let l = roundtrip_text(width, be, bom, 2, [c0, SET[2], NONE], true);
     residues |= 1 << (l % 4);
-    let l = roundtrip_text(width, be, bom, 3, [c0, SET[1], SET[2]]);
+    let l = roundtrip_text(width, be, bom, 3, [c0, SET[1], SET[2]], true);
     residues |= 1 << (l % 4);
-    let l = roundtrip_text(width, be, bom, 3, [c0, SET[1], SET[3]]);
+    let l = roundtrip_text(width, be, bom, 3, [c0, SET[1], SET[3]], true);
     residues |= 1 << (l % 4);
     residues
 }
@@ -301,14 +316,14 @@ fn any_scalar_of_class(class: u8) -> Sc {
 fn roundtrip_class2(width: u8, be: bool, bom: bool, class1: u8) {
     let c0 = any_scalar_of_class(1);
     let c1 = any_scalar_of_class(class1);
-    roundtrip_text(width, be, bom, 2, [c0, c1, NONE]);
+    roundtrip_text(width, be, bom, 2, [c0, c1, NONE], false);
 }
 
 macro_rules! c17_roundtrip_any {
     ($name:ident, $unwind:literal, $width:expr, $be:expr, $bom:expr, $class:expr, $doc:literal) => {
         #[doc = $doc]
         ///
-        /// (b+) `load_tail(E(c0 c1)) == c0 c1` for c0 ANY ASCII 0x01..=0x7F and c1 ANY Unicode scalar
+        /// (b+) `decode_raw_bytes(E(c0 c1)) == [U+FEFF if BOM] c0 c1` for c0 ANY ASCII 0x01..=0x7F and c1 ANY Unicode scalar
         /// value of the stated UTF-8 length class (class 1: U+0001..7F, 2: U+0080..7FF,
         /// 3: U+0800..FFFF without surrogates, 4: U+10000..10FFFF), content fully symbolic.
         /// The four class harnesses of an encoding together cover every c1 except U+0000.
